@@ -322,9 +322,15 @@ def other_cases(ctx, rng, scale, add, dist, failures):
         mlp = rng.random() < 0.4
         fd = rng.choice([d, d + 1])
         tr = nn.Sequential(nn.Linear(fd, 5), nn.ReLU(), nn.Linear(5, d)) if mlp else None
+        coupled = ci % 4 == 3
+        if coupled:
+            # a transform that COUPLES the codes (batch statistics over the rows of the frozen codebook): the returned vector is an entry of the codebook
+            # code_transform(frozen_codebook) as a whole, not the transform of the selected rows alone
+            tr = nn.Sequential(nn.Linear(fd, 5), nn.BatchNorm1d(5), nn.ReLU(), nn.Linear(5, d))
+            dist['simvq_coupled_transform'] = dist.get('simvq_coupled_transform', 0) + 1
         cf = rng.random() < 0.3
-        q = SimVQ(dim=d, codebook_size=K, codebook_transform=tr, frozen_codebook_dim=fd, channel_first=cf, rotation_trick=rng.random() < 0.5)
-        q.train(rng.random() < 0.5)
+        q = SimVQ(dim=d, codebook_size=K, codebook_transform=tr, frozen_codebook_dim=fd, channel_first=cf, rotation_trick=rng.random() < 0.5 and not coupled)
+        q.train(rng.random() < 0.5 or coupled)
         x = torch.randn(2, d, 4) if cf else torch.randn(2, 4, d)
         with torch.no_grad():
             out, idx, loss = q(x)
